@@ -361,6 +361,20 @@ func runJournalStopTimes(c *Ctx) {
 		nStores := 0
 		for _, blk := range tu.Blocks {
 			for _, in := range blk.Instrs {
+				if call, isCall := in.(*ssa.Call); isCall && cpCall != nil && in != cpCall && (cpCall.Block() == blk || canReach(cpCall.Block(), blk)) {
+					// a helper called between the partition and the loops that re-homes the list
+					if callee := staticCallee(call); callee != nil && callee != cp && p.fnIndex[callee] {
+						if at := rehomesStopTimes(p, callee, map[*ssa.Function]bool{}, 0); at != "" {
+							nStores++
+							for _, l := range loops {
+								if l.Blocks[blk] || canReach(blk, l.Header) {
+									moved = p.ipos(call) + " (" + shortName(callee) + " stores a new array at " + at + ")"
+								}
+							}
+						}
+					}
+					continue
+				}
 				st, ok := in.(*ssa.Store)
 				if !ok || !strings.HasSuffix(canon(st.Addr), ".StopTimes") {
 					continue
@@ -385,6 +399,37 @@ func runJournalStopTimes(c *Ctx) {
 	}
 	// J4: createPartition
 	runPartitionShape(c, cp, ps, b)
+}
+
+// rehomesStopTimes: fn (or a module function it calls) stores into a StopTimes field something other than a re-slice of
+// that field: position of the store, or "".
+func rehomesStopTimes(p *Program, fn *ssa.Function, seen map[*ssa.Function]bool, d int) string {
+	if fn == nil || seen[fn] || d > 3 {
+		return ""
+	}
+	seen[fn] = true
+	for _, blk := range fn.Blocks {
+		for _, in := range blk.Instrs {
+			switch x := in.(type) {
+			case *ssa.Store:
+				fa, ok := x.Addr.(*ssa.FieldAddr)
+				if !ok || fieldName(fa.X.Type(), fa.Field) != "StopTimes" {
+					continue
+				}
+				if sl, isSl := x.Val.(*ssa.Slice); isSl && canon(sl.X) == "*("+canon(x.Addr)+")" {
+					continue
+				}
+				return p.ipos(x)
+			case *ssa.Call:
+				if callee := staticCallee(x); callee != nil && p.fnIndex[callee] {
+					if at := rehomesStopTimes(p, callee, seen, d+1); at != "" {
+						return at
+					}
+				}
+			}
+		}
+	}
+	return ""
 }
 
 // isPartitionTrim: s[:len(P.prefix)+len(P.pairs)] for a partition value P.
@@ -444,6 +489,28 @@ func searchLeaves(c *Ctx, v ssa.Value, stopTimes ssa.Value, fn *ssa.Function, ar
 				}
 			}
 			return
+		}
+		*out = append(*out, searchLeaf{idx: v, fn: fn, args: args})
+	case *ssa.Extract:
+		// one result of a helper that answers (index, found)
+		if call, isCall := x.Tuple.(*ssa.Call); isCall && args == nil {
+			cal := call.Call.StaticCallee()
+			if cal != nil && !call.Call.IsInvoke() && c.P.isModuleFn(cal) && len(cal.Blocks) > 0 {
+				m := map[*ssa.Parameter]ssa.Value{}
+				var seqParam ssa.Value
+				for k, a := range call.Call.Args {
+					if k < len(cal.Params) {
+						m[cal.Params[k]] = a
+						if a == stopTimes {
+							seqParam = cal.Params[k]
+						}
+					}
+				}
+				eachReturned(cal, x.Index, func(rv ssa.Value, at *ssa.BasicBlock, ret *ssa.Return) {
+					searchLeaves(c, rv, seqParam, cal, m, d+1, out, seen)
+				})
+				return
+			}
 		}
 		*out = append(*out, searchLeaf{idx: v, fn: fn, args: args})
 	default:
@@ -646,6 +713,23 @@ func runJournalTrips(c *Ctx) {
 		return
 	}
 	fname := shortName(bj)
+	// the code of BuildJournal: the function itself and the named helpers it was split into (not Trip.update /
+	// Trip.markPast and what they call)
+	var jregion []*ssa.Function
+	{
+		excl := map[*ssa.Function]bool{}
+		for _, g := range c.regionOf(tu) {
+			excl[g] = true
+		}
+		for _, g := range c.regionOf(tm) {
+			excl[g] = true
+		}
+		for _, g := range c.regionOf(bj) {
+			if !excl[g] && g.Parent() == nil && fnPkgPath(g) == fnPkgPath(bj) && len(g.Blocks) > 0 {
+				jregion = append(jregion, g)
+			}
+		}
+	}
 	// K1: the UID under which an entry is kept (key of the trips map) and the UID recorded in the entry (Trip.TripUID)
 	// are built by the same function from (ID.StartDate.Add(ID.StartTime), ID.ID) of the same trip update
 	var uidFn *ssa.Function
@@ -713,35 +797,37 @@ func runJournalTrips(c *Ctx) {
 			}
 		}
 		// every key of the trips map is such a UID
-		for _, blk := range bj.Blocks {
-			for _, in := range blk.Instrs {
-				var m, k ssa.Value
-				switch x := in.(type) {
-				case *ssa.MapUpdate:
-					m, k = x.Map, x.Key
-				case *ssa.Lookup:
-					m, k = x.X, x.Index
-				}
-				if m == nil || !strings.HasSuffix(m.Type().String(), "journal.Trip") {
-					continue
-				}
-				srcOK := false
-				switch kk := k.(type) {
-				case *ssa.Call:
-					srcOK = staticCallee(kk) == uidFn
-				case *ssa.Extract:
-					// key of a range over a map[string]bool filled with such UIDs, or of the trips map itself
-					if nx, ok := kk.Tuple.(*ssa.Next); ok {
-						if rng, ok := nx.Iter.(*ssa.Range); ok {
-							srcOK = mapKeysFrom(bj, rng.X, uidFn) || rng.X == m
-						}
+		for _, g := range jregion {
+			for _, blk := range g.Blocks {
+				for _, in := range blk.Instrs {
+					var m, k ssa.Value
+					switch x := in.(type) {
+					case *ssa.MapUpdate:
+						m, k = x.Map, x.Key
+					case *ssa.Lookup:
+						m, k = x.X, x.Index
 					}
-				case *ssa.UnOp, *ssa.Index, *ssa.Phi:
-					// an element of the key list collected from the map's own keys (the copy-out after the feeds)
-					srcOK = true
-				}
-				if !srcOK {
-					okUID, whyUID = false, "the trips map is accessed under a key that is not the UID helper's result: "+clip(b.bind(k), 100)
+					if m == nil || !strings.HasSuffix(m.Type().String(), "journal.Trip") {
+						continue
+					}
+					srcOK := false
+					switch kk := k.(type) {
+					case *ssa.Call:
+						srcOK = staticCallee(kk) == uidFn
+					case *ssa.Extract:
+						// key of a range over a map[string]bool filled with such UIDs, or of the trips map itself
+						if nx, ok := kk.Tuple.(*ssa.Next); ok {
+							if rng, ok := nx.Iter.(*ssa.Range); ok {
+								srcOK = setKeysFrom(jregion, rng.X.Type(), uidFn) || rng.X == m
+							}
+						}
+					case *ssa.UnOp, *ssa.Index, *ssa.Phi:
+						// an element of the key list collected from the map's own keys (the copy-out after the feeds)
+						srcOK = true
+					}
+					if !srcOK {
+						okUID, whyUID = false, "the trips map is accessed under a key that is not the UID helper's result: "+clip(b.bind(k), 100)
+					}
 				}
 			}
 		}
@@ -750,7 +836,15 @@ func runJournalTrips(c *Ctx) {
 	// K2: every trip update of a feed reaches update-or-create, and is recorded as active
 	loops := naturalLoops(bj)
 	var tripLoop, vanishLoop, feedLoop *Loop
-	for _, l := range loops {
+	var allLoops []*Loop
+	for _, g := range jregion {
+		if g == bj {
+			allLoops = append(allLoops, loops...)
+		} else {
+			allLoops = append(allLoops, naturalLoops(g)...)
+		}
+	}
+	for _, l := range allLoops {
 		for blk := range l.Blocks {
 			for _, in := range blk.Instrs {
 				if call, ok := in.(*ssa.Call); ok {
@@ -764,7 +858,7 @@ func runJournalTrips(c *Ctx) {
 							vanishLoop = l
 						}
 					}
-					if call.Call.IsInvoke() && call.Call.Method.Name() == "Next" {
+					if call.Call.IsInvoke() && call.Call.Method.Name() == "Next" && l.Header.Parent() == bj {
 						if feedLoop == nil || len(l.Blocks) > len(feedLoop.Blocks) {
 							feedLoop = l
 						}
@@ -864,7 +958,14 @@ func runJournalTrips(c *Ctx) {
 		okVanish = okMark
 		whyV = "a trip of the previous feed is not marked past exactly when it is absent from the current feed, with the current feed's time"
 		// activeTrips replaced each feed: the ranged map is a phi at the feed loop's header fed by the per-feed map
-		if phi, isPhi := rng.X.(*ssa.Phi); !isPhi || phi.Block() != feedLoop.Header {
+		prev := rng.X
+		if prm, isPrm := prev.(*ssa.Parameter); isPrm {
+			// the per-feed work lives in a helper: the set it ranges over is what BuildJournal passes
+			if a := uniqueCallArg(c, prm, jregion); a != nil {
+				prev = a
+			}
+		}
+		if phi, isPhi := prev.(*ssa.Phi); !isPhi || phi.Block() != feedLoop.Header {
 			okVanish, whyV = false, "the set of trips present in the previous feed is not replaced after each feed (a single reused set or a time comparison cannot tell a skipped update from a vanished trip)"
 		} else {
 			fresh := false
@@ -872,6 +973,21 @@ func runJournalTrips(c *Ctx) {
 				if feedLoop.Blocks[phi.Block().Preds[i]] {
 					if mk, isMk := ed.(*ssa.MakeMap); isMk && feedLoop.Blocks[mk.Block()] {
 						fresh = true
+					}
+					// the set a helper called for this feed made and returned
+					if call, isCall := ed.(*ssa.Call); isCall && feedLoop.Blocks[call.Block()] {
+						if h := staticCallee(call); h != nil && c.P.isModuleFn(h) && len(h.Blocks) > 0 && h.Signature.Results().Len() == 1 {
+							all, n := true, 0
+							eachReturned(h, 0, func(v ssa.Value, at *ssa.BasicBlock, ret *ssa.Return) {
+								n++
+								if _, isMk := v.(*ssa.MakeMap); !isMk {
+									all = false
+								}
+							})
+							if all && n > 0 {
+								fresh = true
+							}
+						}
 					}
 				}
 			}
@@ -1010,6 +1126,52 @@ func runJournalTrips(c *Ctx) {
 		}
 	}
 	c.Check(okAllStops, "ACCT", shortName(tm), "marking a trip past marks all its stops", p.pos(tm.Pos()), "for every index of StopTimes: StopTimes[i].markPast(t)", "marking a trip past does not visit every stop time")
+}
+
+// setKeysFrom: every key put into a map of type t anywhere in the given functions is a result of f.
+func setKeysFrom(fns []*ssa.Function, t types.Type, f *ssa.Function) bool {
+	n := 0
+	for _, fn := range fns {
+		for _, b := range fn.Blocks {
+			for _, in := range b.Instrs {
+				if mu, ok := in.(*ssa.MapUpdate); ok && types.Identical(mu.Map.Type(), t) {
+					n++
+					call, isCall := mu.Key.(*ssa.Call)
+					if !isCall || staticCallee(call) != f {
+						return false
+					}
+				}
+			}
+		}
+	}
+	return n > 0
+}
+
+// uniqueCallArg: what the one call site (inside the given functions) of prm's function passes for prm.
+func uniqueCallArg(c *Ctx, prm *ssa.Parameter, within []*ssa.Function) ssa.Value {
+	fn := prm.Parent()
+	idx := -1
+	for i, q := range fn.Params {
+		if q == prm {
+			idx = i
+		}
+	}
+	in := map[*ssa.Function]bool{}
+	for _, g := range within {
+		in[g] = true
+	}
+	var arg ssa.Value
+	n := 0
+	for _, e := range c.P.Callers(fn) {
+		if e.Caller != nil && in[e.Caller] && idx >= 0 && idx < len(e.Site.Common().Args) {
+			arg = e.Site.Common().Args[idx]
+			n++
+		}
+	}
+	if n != 1 {
+		return nil
+	}
+	return arg
 }
 
 // mapKeysFrom: every key ever put into map m (in fn) is a result of f.
